@@ -303,6 +303,33 @@ def clearDoc : Doc → Doc
   | arr _ => arr []
   | d => d
 
+/-- Writing through a reference that a chain of subscripts has already produced (the members along the
+path exist): no table growth, nothing is vivified. -/
+def refUpd : List Sel → (Doc → Doc) → Doc → Doc
+  | [], f, d => f d
+  | Sel.key k :: p, f, obj c s => obj c (slotUpd k (refUpd p f) s)
+  | Sel.idx i :: p, f, arr items => arr (setAtIdx i (refUpd p f) items)
+  | Sel.idx i :: p, f, obj c s =>
+      match s[i]? with
+      | some (some (k, v)) => obj c (s.set i (some (k, refUpd p f v)))
+      | _ => obj c s
+  | _ :: _, _, d => d
+
+/-- a container after its content was moved out (`HashTable`/`Array`/`String` move construction). -/
+def movedOut : Doc → Doc
+  | obj _ _ => obj 0 []
+  | arr _ => arr []
+  | str _ => str []
+  | d => d
+
+/-- kind of a container operand: 2 Object, 3 Array, 4 String (the `ValueType` numbers). -/
+def isContainerKind (k : Nat) (d : Doc) : Bool :=
+  match k, d with
+  | 2, obj _ _ => true
+  | 3, arr _ => true
+  | 4, str _ => true
+  | _, _ => false
+
 /-! ### Pointer resolution -/
 
 def envGet (env : Env) (r : Nat) : Doc :=
@@ -389,6 +416,16 @@ def getKey (env : Env) (d : Doc) (i : Nat) : Option Key :=
       match s[i]? with
       | some (some (k, _)) => some k
       | _ => none
+  | _ => none
+
+/-- `CopyKeyByIndexTo` (Value.hpp:1590-1609): `none` = `false`; on an object the answer is `true` and the key of a
+live slot is appended (nothing for a removed slot or an index past the end). -/
+def copyKeyByIndexTo (env : Env) (d : Doc) (i : Nat) : Option (List Nat) :=
+  match deref env d with
+  | obj _ s =>
+      match s[i]? with
+      | some (some (k, _)) => some k
+      | _ => some []
   | _ => none
 
 /-- `SetValueAndKey` / `SetValueKeyLength` (1433-1467): value and key of a slot, absent when the slot is
